@@ -1,5 +1,628 @@
-//! C18 — not implemented yet.
+//! C18 — container and derived serializations round-trip, size exactly, fail cleanly.
+use ark_ff::BigInt;
+use ark_serialize::{
+    CanonicalDeserialize, CanonicalSerialize, Compress, CompressedChecked, CompressedUnchecked, Read, SerializationError,
+    UncompressedChecked, UncompressedUnchecked, Validate,
+};
+use num_bigint::BigUint;
+use std::borrow::Cow;
+use std::collections::{BTreeMap, BTreeSet, LinkedList, VecDeque};
+use std::marker::PhantomData;
+use std::rc::Rc;
+use std::sync::Arc;
+use vh_core::engine::{no_panic, Obs, PropSpec, Rel, Tape, Tier, R};
+use vh_core::{ensure, ensure_eq};
+
+mod hv;
+use hv::*;
+
+// ---------------------------------------------------------------------------------------
+// helpers
+// ---------------------------------------------------------------------------------------
+
+/// reader over a byte slice that remembers how far it was read
+struct Cur<'a> {
+    d: &'a [u8],
+    pos: usize,
+}
+impl<'a> Cur<'a> {
+    fn new(d: &'a [u8]) -> Self {
+        Cur { d, pos: 0 }
+    }
+}
+impl Read for Cur<'_> {
+    fn read(&mut self, buf: &mut [u8]) -> std::io::Result<usize> {
+        let n = buf.len().min(self.d.len() - self.pos);
+        buf[..n].copy_from_slice(&self.d[self.pos..self.pos + n]);
+        self.pos += n;
+        Ok(n)
+    }
+}
+
+fn cname(c: Compress) -> &'static str {
+    match c {
+        Compress::Yes => "compressed",
+        Compress::No => "uncompressed",
+    }
+}
+fn vname(v: Validate) -> &'static str {
+    match v {
+        Validate::Yes => "checked",
+        Validate::No => "unchecked",
+    }
+}
+
+/// digit runs of more than 24 characters (coordinates of curve points) are abbreviated
+fn squash_digits(s: &str) -> String {
+    let mut out = String::with_capacity(s.len());
+    let mut run = String::new();
+    let flush = |run: &mut String, out: &mut String| {
+        if run.len() > 24 {
+            out.push_str(&run[..5]);
+            out.push('…');
+            out.push_str(&run[run.len() - 3..]);
+        } else {
+            out.push_str(run);
+        }
+        run.clear();
+    };
+    for ch in s.chars() {
+        if ch.is_ascii_digit() {
+            run.push(ch);
+        } else {
+            flush(&mut run, &mut out);
+            out.push(ch);
+        }
+    }
+    flush(&mut run, &mut out);
+    out
+}
+
+fn short<T: std::fmt::Debug>(v: &T) -> String {
+    let s = squash_digits(&format!("{:?}", v));
+    if s.len() > 240 {
+        let cut = s.char_indices().take_while(|(i, _)| *i < 240).last().map(|x| x.0).unwrap_or(0);
+        format!("{}… ({} chars)", &s[..cut], s.len())
+    } else {
+        s
+    }
+}
+
+fn hexs(b: &[u8]) -> String {
+    let mut s: String = b.iter().take(48).map(|x| format!("{:02x}", x)).collect();
+    if b.len() > 48 {
+        s.push_str(&format!("…({} bytes)", b.len()));
+    }
+    s
+}
+
+fn ser<T: CanonicalSerialize>(v: &T, c: Compress, what: &str) -> Result<Vec<u8>, vh_core::Fail> {
+    let mut b = Vec::new();
+    match no_panic(what, || v.serialize_with_mode(&mut b, c))? {
+        Ok(()) => Ok(b),
+        Err(e) => Err(vh_core::Fail { sig: format!("{}.err", what), msg: format!("{} failed: {}", what, e) }),
+    }
+}
+
+fn de<T: CanonicalDeserialize>(b: &[u8], c: Compress, v: Validate) -> Result<(Result<T, SerializationError>, usize), vh_core::Fail> {
+    let mut cur = Cur::new(b);
+    let r = no_panic("deserialize", || T::deserialize_with_mode(&mut cur, c, v))?;
+    Ok((r, cur.pos))
+}
+
+const MODES: [(Compress, Validate); 4] = [(Compress::Yes, Validate::Yes), (Compress::Yes, Validate::No), (Compress::No, Validate::Yes), (Compress::No, Validate::No)];
+
+macro_rules! call {
+    ($f:ident, $ty:ty, $name:expr, ($($a:expr),*)) => {
+        $f::<$ty>($name, $($a),*)
+    };
+}
+
+/// choose one of a list of types with the tape and call `$f::<Type>("Type", args..)`
+macro_rules! dispatch {
+    ($t:expr, $f:ident $args:tt ; $($ty:ty),+ $(,)?) => {{
+        let names: &[&'static str] = &[$(stringify!($ty)),+];
+        let k = $t.idx(names.len());
+        let mut i = 0usize;
+        $(
+            if i == k {
+                return call!($f, $ty, names[k], $args);
+            }
+            i += 1;
+        )+
+        let _ = i;
+        unreachable!()
+    }};
+}
+
+fn stats(o: &mut Obs, g: &Gen<'_, '_>) {
+    o.class_if(g.max_depth >= 2, "value-depth>=2");
+    o.class_if(g.max_depth >= 3, "value-depth>=3");
+    o.class_if(g.max_depth >= 4, "value-depth>=4");
+    o.class_if(g.max_len >= 2, "container-len>=2");
+    o.class_if(g.max_len >= 10_000, "container-len>=10^4");
+    o.class_if(g.n_empty > 0, "has-empty-container");
+    o.class_if(g.n_points > 0, "has-curve-point");
+}
+
+// ---------------------------------------------------------------------------------------
+// round trip and size
+// ---------------------------------------------------------------------------------------
+
+fn roundtrip<T: Hv>(name: &'static str, t: &mut Tape<'_>, o: &mut Obs, large: bool) -> R {
+    let mut g = Gen::new(t, 160);
+    g.allow_large = large;
+    o.class_if(T::POINTS, "type-with-curve-points");
+    let v = T::gen(&mut g);
+    let tail = g.t.idx(4);
+    stats(o, &g);
+    o.nt(g.max_depth >= 2 || g.max_len >= 2);
+    let (depth, len) = (g.max_depth, g.max_len);
+    o.show(|| format!("{} = {} (depth {}, longest container {}, {} trailing bytes)", name, short(&v), depth, len, tail));
+    o.evals(30);
+    for c in [Compress::Yes, Compress::No] {
+        let bytes = ser(&v, c, "serialize")?;
+        let size = v.serialized_size(c);
+        ensure!(size == bytes.len(), format!("size.{}", cname(c)), "{}: serialized_size({}) = {} but {} bytes were written; value {}", name, cname(c), size, bytes.len(), short(&v));
+        let mut input = bytes.clone();
+        input.extend(std::iter::repeat(0xA5u8).take(tail));
+        for val in [Validate::Yes, Validate::No] {
+            let (r, used) = de::<T>(&input, c, val)?;
+            match r {
+                Ok(w) => {
+                    ensure!(w == v, format!("roundtrip.{}.{}", cname(c), vname(val)), "{}: got {} expected {}", name, short(&w), short(&v));
+                    ensure!(used == bytes.len(), format!("consumed.{}", cname(c)), "{}: deserialization read {} bytes of a {}-byte encoding (followed by {} unrelated bytes)", name, used, bytes.len(), tail);
+                },
+                Err(e) => return vh_core::fail(format!("roundtrip.{}.{}.err", cname(c), vname(val)), format!("{}: deserialize(serialize(v)) failed with {} for v = {}; bytes {}", name, e, short(&v), hexs(&bytes))),
+            }
+        }
+        // reference-like wrappers write the same bytes and report the same size
+        let mut r = v.clone();
+        let b_ref = ser(&&v, c, "serialize.ref")?;
+        let s_ref = (&v).serialized_size(c);
+        let (b_mut, s_mut) = {
+            let m = &mut r;
+            (ser(&m, c, "serialize.refmut")?, m.serialized_size(c))
+        };
+        let rc = Rc::new(v.clone());
+        let arc = Arc::new(v.clone());
+        let cow: Cow<'_, T> = Cow::Borrowed(&v);
+        let wrappers: [(&str, Vec<u8>, usize); 5] = [
+            ("&T", b_ref, s_ref),
+            ("&mut T", b_mut, s_mut),
+            ("Rc<T>", ser(&rc, c, "serialize.rc")?, rc.serialized_size(c)),
+            ("Arc<T>", ser(&arc, c, "serialize.arc")?, arc.serialized_size(c)),
+            ("Cow<T>", ser(&cow, c, "serialize.cow")?, cow.serialized_size(c)),
+        ];
+        for (w, b, s) in wrappers.iter() {
+            ensure!(*b == bytes, "wrapper.bytes", "{}: {} serializes differently from T ({})", name, w, cname(c));
+            ensure!(*s == bytes.len(), "wrapper.size", "{}: {} reports size {} for {} bytes", name, w, s, bytes.len());
+        }
+        let (ra, _) = de::<Arc<T>>(&bytes, c, Validate::Yes)?;
+        ensure!(matches!(&ra, Ok(a) if **a == v), "roundtrip.arc", "{}: Arc<T> round trip gave {:?}", name, ra.map(|x| short(&x)));
+        let (rc, _) = de::<Cow<'static, T>>(&bytes, c, Validate::Yes)?;
+        ensure!(matches!(&rc, Ok(a) if **a == v), "roundtrip.cow", "{}: Cow<T> round trip gave {:?}", name, rc.map(|x| short(&x)));
+    }
+    // the convenience methods are the four mode combinations
+    let bc = ser(&v, Compress::Yes, "serialize")?;
+    let bu = ser(&v, Compress::No, "serialize")?;
+    let mut x = Vec::new();
+    v.serialize_compressed(&mut x).ok();
+    ensure!(x == bc, "serialize_compressed", "{}: serialize_compressed differs from serialize_with_mode(Compress::Yes)", name);
+    let mut x = Vec::new();
+    v.serialize_uncompressed(&mut x).ok();
+    ensure!(x == bu, "serialize_uncompressed", "{}: serialize_uncompressed differs from serialize_with_mode(Compress::No)", name);
+    ensure_eq!(v.compressed_size(), bc.len(), "compressed_size");
+    ensure_eq!(v.uncompressed_size(), bu.len(), "uncompressed_size");
+    ensure!(matches!(T::deserialize_compressed(&bc[..]), Ok(w) if w == v), "deserialize_compressed", "{}: {}", name, short(&v));
+    ensure!(matches!(T::deserialize_compressed_unchecked(&bc[..]), Ok(w) if w == v), "deserialize_compressed_unchecked", "{}: {}", name, short(&v));
+    ensure!(matches!(T::deserialize_uncompressed(&bu[..]), Ok(w) if w == v), "deserialize_uncompressed", "{}: {}", name, short(&v));
+    ensure!(matches!(T::deserialize_uncompressed_unchecked(&bu[..]), Ok(w) if w == v), "deserialize_uncompressed_unchecked", "{}: {}", name, short(&v));
+
+    Ok(())
+}
+
+/// mode-pinning wrappers around a value: whatever mode is requested, the pinned one is used; serde goes through base64
+fn pinned_rt<T: Hv>(name: &'static str, t: &mut Tape<'_>, o: &mut Obs) -> R {
+    let mut g = Gen::new(t, 60);
+    let v = T::gen(&mut g);
+    stats(o, &g);
+    o.nt(g.max_depth >= 2 || g.max_len >= 2);
+    o.show(|| format!("pinned wrappers and serde_json around {} = {}", name, short(&v)));
+    o.evals(40);
+    let bc = ser(&v, Compress::Yes, "serialize")?;
+    let bu = ser(&v, Compress::No, "serialize")?;
+    // mode-pinning wrappers: whatever mode is requested, the pinned one is used
+    macro_rules! pinned {
+        ($W:ident, $pc:expr, $label:expr) => {{
+            let w = $W(v.clone());
+            let want = if $pc == Compress::Yes { &bc } else { &bu };
+            for (c, val) in MODES {
+                let b = ser(&w, c, "serialize.pinned")?;
+                ensure!(&b == want, concat!("pinned.bytes.", $label), "{}: {}<T> asked for {} wrote {} bytes, the pinned encoding has {}", name, $label, cname(c), b.len(), want.len());
+                ensure!(w.serialized_size(c) == b.len(), concat!("pinned.size.", $label), "{}: {}<T>.serialized_size({}) = {} for {} bytes", name, $label, cname(c), w.serialized_size(c), b.len());
+                let (r, used) = de::<$W<T>>(&b, c, val)?;
+                ensure!(matches!(&r, Ok(x) if *x == w) && used == b.len(), concat!("pinned.roundtrip.", $label), "{}: {}<T> round trip ({}, {}) failed: {:?}", name, $label, cname(c), vname(val), r.map(|x| short(&x)));
+            }
+            // serde: base64 of the pinned encoding
+            let js = match no_panic("serde_json.to_string", || serde_json::to_string(&w))? {
+                Ok(s) => s,
+                Err(e) => return vh_core::fail(concat!("serde.ser.", $label), format!("{}: serde_json::to_string failed: {}", name, e)),
+            };
+            match no_panic("serde_json.from_str", || serde_json::from_str::<$W<T>>(&js))? {
+                Ok(x) => ensure!(x == w, concat!("serde.roundtrip.", $label), "{}: serde_json round trip of {}<T> gave {} expected {}", name, $label, short(&x), short(&w)),
+                Err(e) => return vh_core::fail(concat!("serde.de.", $label), format!("{}: serde_json::from_str failed on {}: {}", name, &js[..js.len().min(80)], e)),
+            }
+        }};
+    }
+    pinned!(CompressedChecked, Compress::Yes, "CompressedChecked");
+    pinned!(CompressedUnchecked, Compress::Yes, "CompressedUnchecked");
+    pinned!(UncompressedChecked, Compress::No, "UncompressedChecked");
+    pinned!(UncompressedUnchecked, Compress::No, "UncompressedUnchecked");
+    // the serde `with`-modules for vectors of canonical values
+    let vs: Vec<T> = vec![v.clone(); g.t.idx(4)];
+    macro_rules! vecmod {
+        ($m:ident) => {{
+            let mut out = Vec::new();
+            let mut sr = serde_json::Serializer::new(&mut out);
+            if let Err(e) = no_panic("serde.vecmod.serialize", || ark_serialize::$m::serialize(&vs, &mut sr))? {
+                return vh_core::fail(concat!("serde.vecmod.ser.", stringify!($m)), format!("{}: {}", name, e));
+            }
+            let mut dr = serde_json::Deserializer::from_slice(&out);
+            match no_panic("serde.vecmod.deserialize", || ark_serialize::$m::deserialize::<_, T>(&mut dr))? {
+                Ok(back) => ensure!(back == vs, concat!("serde.vecmod.roundtrip.", stringify!($m)), "{}: {} elements came back as {}", name, vs.len(), short(&back)),
+                Err(e) => return vh_core::fail(concat!("serde.vecmod.de.", stringify!($m)), format!("{}: {}", name, e)),
+            }
+        }};
+    }
+    vecmod!(vec_compressed_checked);
+    vecmod!(vec_compressed_unchecked);
+    vecmod!(vec_uncompressed_checked);
+    vecmod!(vec_uncompressed_unchecked);
+    Ok(())
+}
+
+// ---------------------------------------------------------------------------------------
+// validation: a value with a point outside the subgroup is rejected exactly when validation is on
+// ---------------------------------------------------------------------------------------
+
+fn validity<T: Hv>(name: &'static str, t: &mut Tape<'_>, o: &mut Obs) -> R {
+    let mut g = Gen::new(t, 40);
+    let bp = g.t.weighted(&[2, 5, 3, 1]);
+    g.bad_points = [0u64, 2, 6, 16][bp];
+    let v = T::gen(&mut g);
+    let nbad = g.n_bad;
+    let npts = g.n_points;
+    g.bad_points = 0;
+    let other = T::gen(&mut g);
+    stats(o, &g);
+    let valid = v.ok();
+    o.show(|| format!("{} with {} curve points, {} outside the subgroup: {}", name, npts, nbad, short(&v)));
+    o.class_if(!valid, "contains-invalid-point");
+    o.class_if(valid && npts > 0, "all-points-valid");
+    o.class_if(npts == 0, "no-point-in-value");
+    o.nt(!valid && (g.max_depth >= 2 || g.max_len >= 2 || npts >= 2));
+    o.evals(14);
+    // (an inserted invalid point can disappear again when a map key repeats, so only one direction is a harness invariant)
+    assert!(valid || nbad > 0, "harness: value is invalid although no invalid point was inserted");
+    // derived / container `Valid`
+    let chk = no_panic("check", || v.check())?;
+    ensure!(chk.is_ok() == valid, "check", "{}: check() = {:?} but the value {} a point outside the subgroup: {}", name, chk.err().map(|e| e.to_string()), if valid { "does not contain" } else { "contains" }, short(&v));
+    let pair = [other.clone(), v.clone(), other.clone()];
+    let bc = no_panic("batch_check", || T::batch_check(pair.iter()))?;
+    ensure!(bc.is_ok() == valid, "batch_check", "{}: batch_check over [valid, v, valid] = {:?}, v is {}", name, bc.err().map(|e| e.to_string()), if valid { "valid" } else { "invalid" });
+    let bc = no_panic("batch_check", || T::batch_check([other.clone()].iter()))?;
+    ensure!(bc.is_ok(), "batch_check.valid", "{}: batch_check over a valid value failed", name);
+    for (c, val) in MODES {
+        let bytes = ser(&v, c, "serialize")?;
+        ensure_eq!(v.serialized_size(c), bytes.len(), format!("size.{}", cname(c)));
+        let (r, _) = de::<T>(&bytes, c, val)?;
+        let expect_ok = valid || val == Validate::No;
+        match r {
+            Ok(w) => {
+                ensure!(expect_ok, format!("validate.accepted.{}", cname(c)), "{}: deserialization with validation accepted a value with a point outside the subgroup: {}", name, short(&v));
+                ensure!(w == v, format!("roundtrip.{}.{}", cname(c), vname(val)), "{}: got {} expected {}", name, short(&w), short(&v));
+            },
+            Err(e) => ensure!(!expect_ok, format!("validate.rejected.{}.{}", cname(c), vname(val)), "{}: deserialize ({}, {}) failed with {} on {} value {}", name, cname(c), vname(val), e, if valid { "the valid" } else { "the invalid (validation is off)" }, short(&v)),
+        }
+        // pinned wrappers at top level: the pinned validation decides, not the requested one
+        let pc = ser(&v, Compress::Yes, "serialize")?;
+        let pu = ser(&v, Compress::No, "serialize")?;
+        let r1 = de::<CompressedChecked<T>>(&pc, c, val)?.0;
+        let r2 = de::<CompressedUnchecked<T>>(&pc, c, val)?.0;
+        let r3 = de::<UncompressedChecked<T>>(&pu, c, val)?.0;
+        let r4 = de::<UncompressedUnchecked<T>>(&pu, c, val)?.0;
+        ensure!(r1.is_ok() == valid, "pinned.CompressedChecked", "{}: CompressedChecked<T>::deserialize({}, {}) ok={} for a value with valid={}", name, cname(c), vname(val), r1.is_ok(), valid);
+        ensure!(r3.is_ok() == valid, "pinned.UncompressedChecked", "{}: UncompressedChecked<T>::deserialize({}, {}) ok={} for a value with valid={}", name, cname(c), vname(val), r3.is_ok(), valid);
+        ensure!(matches!(&r2, Ok(x) if x.0 == v), "pinned.CompressedUnchecked", "{}: CompressedUnchecked<T>::deserialize({}, {}) must skip validation", name, cname(c), vname(val));
+        ensure!(matches!(&r4, Ok(x) if x.0 == v), "pinned.UncompressedUnchecked", "{}: UncompressedUnchecked<T>::deserialize({}, {}) must skip validation", name, cname(c), vname(val));
+    }
+    Ok(())
+}
+
+// ---------------------------------------------------------------------------------------
+// hostile bytes
+// ---------------------------------------------------------------------------------------
+
+/// Feed `input`. `must_err`: the input is malformed for certain (truncated, bad boolean, bad UTF-8, length prefix
+/// beyond the input), so `Ok` is a violation. Otherwise `Ok(w)` is acceptable only if the bytes read are an encoding of
+/// `w`: for types whose deserializer accepts nothing but canonical encodings the re-serialization must equal the bytes
+/// read; in every case `w` must round-trip and size correctly.
+fn attempt<T: Hv>(name: &str, input: &[u8], c: Compress, val: Validate, must_err: bool, kind: &str) -> R {
+    let mut cur = Cur::new(input);
+    let r = no_panic(kind, || T::deserialize_with_mode(&mut cur, c, val))?;
+    let used = cur.pos;
+    match r {
+        Err(_) => Ok(()),
+        Ok(w) => {
+            ensure!(!must_err, format!("{}.accepted", kind), "{}: malformed input ({}) was accepted ({}, {}): {} -> {}", name, kind, cname(c), vname(val), hexs(input), short(&w));
+            let re = ser(&w, c, "reserialize")?;
+            ensure!(w.serialized_size(c) == re.len(), format!("{}.size", kind), "{}: value parsed from hostile bytes reports size {} but writes {}", name, w.serialized_size(c), re.len());
+            if T::CANON {
+                ensure!(re[..] == input[..used], format!("{}.noncanonical", kind), "{}: accepted {} ({} bytes read) but the value {} serializes as {}", name, hexs(&input[..used]), used, short(&w), hexs(&re));
+            }
+            let (r2, _) = de::<T>(&re, c, Validate::No)?;
+            ensure!(matches!(&r2, Ok(x) if *x == w), format!("{}.unstable", kind), "{}: the value parsed from hostile bytes does not round-trip: {}", name, short(&w));
+            Ok(())
+        },
+    }
+}
+
+fn hostile<T: Hv>(name: &'static str, t: &mut Tape<'_>, o: &mut Obs) -> R {
+    assert!(T::SAFE, "{} must not be used with hostile length prefixes", name);
+    let mut g = Gen::new(t, 24);
+    let v = T::gen(&mut g);
+    let t = g.t;
+    let (c, val) = MODES[t.idx(4)];
+    let bytes = ser(&v, c, "serialize")?;
+    let mut m = Enc::default();
+    v.enc(c, &mut m);
+    let model_ok = m.b == bytes;
+    o.class(if model_ok { "format-model-agrees" } else { "format-model-DISAGREES" });
+    let has_utf8 = m.strs.iter().any(|r| r.1 > 0);
+    // only kinds that have a target in this encoding (positions come from the model; without an agreeing model only
+    // truncation, uniform bytes and blind mutation are possible)
+    let weights: [u32; 6] = [
+        if bytes.is_empty() { 0 } else { 3 },
+        if model_ok && !m.bools.is_empty() { 2 } else { 0 },
+        if model_ok && has_utf8 { 2 } else { 0 },
+        if model_ok && !m.lens.is_empty() { 6 } else { 0 },
+        3,
+        3,
+    ];
+    let kind = t.weighted(&weights);
+    let l = bytes.len();
+    match kind {
+        0 => {
+            // truncated at every position (for long encodings: all positions next to a mark and 64 others)
+            let cuts: Vec<usize> = if l <= 160 {
+                (0..l).collect()
+            } else {
+                let mut c: Vec<usize> = (0..64).map(|_| t.idx(l)).collect();
+                for (p, _) in m.lens.iter().take(40) {
+                    c.extend([*p, p + 1, p + 7, p + 8].into_iter().filter(|x| *x < l));
+                }
+                c.push(l - 1);
+                c
+            };
+            o.class("hostile-truncated");
+            o.nt(!m.lens.is_empty() || (!cuts.is_empty() && l >= 8));
+            o.show(|| format!("{} ({}, {}) {} -> encoding of {} bytes truncated at {} positions", name, cname(c), vname(val), short(&v), l, cuts.len()));
+            o.evals(cuts.len() as u64);
+            for cut in cuts {
+                attempt::<T>(name, &bytes[..cut], c, val, true, "truncated")?;
+            }
+        },
+        1 => {
+            o.class("hostile-bad-bool");
+            o.nt(!m.bools.is_empty());
+            o.show(|| format!("{} ({}, {}) {} -> {} boolean bytes set to values > 1", name, cname(c), vname(val), short(&v), m.bools.len()));
+            for p in m.bools.iter().take(24) {
+                let bad = [2u8, 3, 0x80, 0xff, 0x10, (t.below(254) + 2) as u8][t.idx(6)];
+                let mut b = bytes.clone();
+                b[*p] = bad;
+                attempt::<T>(name, &b, c, val, true, "bad-bool")?;
+            }
+        },
+        2 => {
+            let regions: Vec<(usize, usize)> = m.strs.iter().cloned().filter(|r| r.1 > 0).collect();
+            o.class("hostile-bad-utf8");
+            o.nt(!regions.is_empty());
+            o.show(|| format!("{} ({}, {}) {} -> invalid UTF-8 in {} strings", name, cname(c), vname(val), short(&v), regions.len()));
+            for (off, len) in regions.iter().take(16) {
+                // bytes that never occur in UTF-8
+                let bad = [0xffu8, 0xfe, 0xc0, 0xc1, 0xf8, 0xf5][t.idx(6)];
+                let mut b = bytes.clone();
+                b[off + t.idx(*len)] = bad;
+                attempt::<T>(name, &b, c, val, true, "bad-utf8")?;
+            }
+        },
+        3 => {
+            o.class("hostile-length-prefix");
+            o.nt(!m.lens.is_empty());
+            o.show(|| format!("{} ({}, {}) {} -> each of {} length prefixes replaced by n+1, 2^32, 2^40, 2^62-1, 2^64-1, …", name, cname(c), vname(val), short(&v), m.lens.len()));
+            o.evals(7 * m.lens.len().min(24) as u64);
+            for (i, (p, n)) in m.lens.iter().enumerate().take(24) {
+                o.class_if(i > 0, "hostile-length-prefix-nested");
+                let huge = [1u64 << 32, 1 << 40, (1 << 62) - 1, u64::MAX, 1 << 63, (1 << 61) + 1, n + (1 << 32)];
+                for h in huge {
+                    let mut b = bytes.clone();
+                    b[*p..*p + 8].copy_from_slice(&h.to_le_bytes());
+                    // more elements than input bytes, each element at least one byte long: cannot be satisfied
+                    attempt::<T>(name, &b, c, val, true, "length-huge")?;
+                }
+                let mut b = bytes.clone();
+                b[*p..*p + 8].copy_from_slice(&(n + 1).to_le_bytes());
+                attempt::<T>(name, &b, c, val, false, "length-plus-1")?;
+                if *n > 0 {
+                    let mut b = bytes.clone();
+                    b[*p..*p + 8].copy_from_slice(&(n - 1).to_le_bytes());
+                    attempt::<T>(name, &b, c, val, false, "length-minus-1")?;
+                }
+            }
+        },
+        4 => {
+            // uniform bytes, optionally behind an "interesting" first word (the outermost length prefix, if any)
+            let n = t.idx(96);
+            let mut b = Vec::new();
+            if t.bool() {
+                b.extend_from_slice(&t.edge_u64().to_le_bytes());
+            }
+            b.extend(t.bytes(n));
+            o.class("hostile-uniform");
+            o.nt(T::MIN >= 8 && b.len() >= 8);
+            o.show(|| format!("{} ({}, {}) uniform bytes {}", name, cname(c), vname(val), hexs(&b)));
+            attempt::<T>(name, &b, c, val, false, "uniform")?;
+        },
+        _ => {
+            // a valid encoding with a few bytes replaced
+            let mut b = bytes.clone();
+            let k = 1 + t.idx(3);
+            if l > 0 {
+                for _ in 0..k {
+                    let p = t.idx(l);
+                    b[p] = match t.below(4) {
+                        0 => b[p] ^ (1 << t.below(8)),
+                        1 => 0xff,
+                        2 => 0,
+                        _ => t.u64() as u8,
+                    };
+                }
+            }
+            o.class("hostile-mutated");
+            o.nt(!m.lens.is_empty() && b != bytes);
+            o.show(|| format!("{} ({}, {}) {} -> {} bytes of the encoding replaced: {}", name, cname(c), vname(val), short(&v), k, hexs(&b)));
+            attempt::<T>(name, &b, c, val, false, "mutated")?;
+        },
+    }
+    Ok(())
+}
+
+// ---------------------------------------------------------------------------------------
+// the closed set of types
+// ---------------------------------------------------------------------------------------
+
+type Ints = (u8, u16, u32, u64, i8);
+type Ints2 = (i16, i32, i64, usize, isize);
+type Deep = Vec<Vec<Vec<Vec<u8>>>>;
+type MapDeep = BTreeMap<u8, BTreeMap<u8, BTreeSet<i8>>>;
+
+fn rt_scalars(t: &mut Tape<'_>, o: &mut Obs) -> R {
+    dispatch!(t, roundtrip(t, o, false);
+        Ints, Ints2, (), (u8,), ((), (u16,)), (bool, Option<bool>, Option<Option<u8>>), u64, i8, usize, isize, bool,
+        [u16; 0], [u8; 1], [u32; 7], [Option<u8>; 3], [(u8, bool); 2], [[u8; 2]; 3],
+        PhantomData<u64>, (PhantomData<String>, u8), BigInt<1>, BigInt<4>, (BigInt<2>, BigUint), BigUint, Option<BigUint>)
+}
+
+fn rt_seqs(t: &mut Tape<'_>, o: &mut Obs) -> R {
+    dispatch!(t, roundtrip(t, o, false);
+        Vec<u8>, Vec<u64>, Vec<bool>, Deep, Vec<String>, Vec<Option<(u8, String)>>, VecDeque<u32>, VecDeque<Vec<bool>>,
+        LinkedList<u16>, LinkedList<String>, String, [Vec<u8>; 2], Vec<[u16; 3]>, Vec<BigUint>, Option<Vec<Option<Vec<i32>>>>,
+        Vec<()>, Vec<[u8; 0]>, Vec<Unit>, VecDeque<PhantomData<u8>>, LinkedList<((), ())>)
+}
+
+fn rt_maps(t: &mut Tape<'_>, o: &mut Obs) -> R {
+    dispatch!(t, roundtrip(t, o, false);
+        BTreeMap<u32, u8>, BTreeMap<String, Vec<u16>>, MapDeep, BTreeSet<u64>, BTreeSet<String>, BTreeSet<(u8, bool)>,
+        BTreeMap<(i8, u8), Option<String>>, Vec<BTreeSet<u8>>, BTreeMap<u8, ()>, BTreeSet<Vec<u8>>)
+}
+
+fn rt_pointers(t: &mut Tape<'_>, o: &mut Obs) -> R {
+    dispatch!(t, roundtrip(t, o, false);
+        Arc<Vec<u8>>, Vec<Arc<u16>>, Cow<'static, String>, Cow<'static, Vec<u32>>, Vec<Cow<'static, u32>>, (Arc<String>, Cow<'static, bool>),
+        CompressedChecked<Vec<u16>>, (UncompressedUnchecked<G1>, u8), Vec<CompressedUnchecked<(u8, bool)>>, UncompressedChecked<Named>,
+        Option<Arc<Option<u8>>>)
+}
+
+fn rt_derive(t: &mut Tape<'_>, o: &mut Obs) -> R {
+    dispatch!(t, roundtrip(t, o, false);
+        Named, Tup, One, Unit, Zst, Plain, Gs<u8>, Gs<G1>, Gs<Unit>, Gs<Gs<u16>>, Vec<Plain>, Option<Tup>, (G1, u8), Option<G1>)
+}
+
+fn rt_derive2(t: &mut Tape<'_>, o: &mut Obs) -> R {
+    dispatch!(t, roundtrip(t, o, false);
+        Gs<Named>, Nest, Vec<Named>, [One; 2], BTreeMap<u8, Named>, Vec<G1>, VecDeque<Tup>, LinkedList<(G1, bool)>)
+}
+
+fn rt_pinned(t: &mut Tape<'_>, o: &mut Obs) -> R {
+    dispatch!(t, pinned_rt(t, o);
+        Ints, bool, (), [u16; 3], Option<Option<u8>>, Vec<u8>, Vec<String>, Deep, VecDeque<u32>, LinkedList<u16>, String, BTreeMap<u32, u8>,
+        BTreeSet<String>, BigUint, BigInt<4>, Arc<Vec<u8>>, Cow<'static, String>, PhantomData<u64>, Named, Tup, One, Unit, Zst, Plain, Gs<u8>, Vec<G1>,
+        CompressedChecked<UncompressedUnchecked<Vec<u16>>>)
+}
+
+fn rt_large(t: &mut Tape<'_>, o: &mut Obs) -> R {
+    dispatch!(t, roundtrip(t, o, true);
+        Vec<u8>, Vec<u64>, Vec<bool>, VecDeque<u32>, LinkedList<u16>, String, BTreeMap<u32, u8>, BTreeSet<u64>, BigUint,
+        Vec<(u8, bool)>, Vec<BigInt<2>>, (Vec<u16>, String), Gs<u32>, Vec<()>)
+}
+
+fn validity_rel(t: &mut Tape<'_>, o: &mut Obs) -> R {
+    dispatch!(t, validity(t, o);
+        Named, Tup, One, Gs<G1>, Option<Tup>, [One; 2], Option<G1>, (G1, u8), [G1; 3], Arc<G1>, Cow<'static, One>, Plain)
+}
+
+fn validity_rel2(t: &mut Tape<'_>, o: &mut Obs) -> R {
+    dispatch!(t, validity(t, o);
+        Gs<Named>, Nest, Vec<Named>, BTreeMap<u8, Named>, Vec<G1>, VecDeque<Tup>, LinkedList<(G1, bool)>, Vec<Option<G1>>, Gs<Gs<One>>)
+}
+
+fn hostile_seqs(t: &mut Tape<'_>, o: &mut Obs) -> R {
+    dispatch!(t, hostile(t, o);
+        Vec<u8>, Vec<u64>, Vec<bool>, Deep, Vec<String>, Vec<Option<(u8, String)>>, VecDeque<u32>, VecDeque<Vec<bool>>,
+        LinkedList<u16>, LinkedList<String>, String, [Vec<u8>; 2], Option<Vec<Option<Vec<i32>>>>, (Vec<u16>, Vec<u16>), Vec<BigInt<2>>)
+}
+
+fn hostile_maps(t: &mut Tape<'_>, o: &mut Obs) -> R {
+    dispatch!(t, hostile(t, o);
+        BTreeMap<u32, u8>, BTreeMap<String, Vec<u16>>, MapDeep, BTreeSet<u64>, BTreeSet<String>, BTreeSet<(u8, bool)>,
+        BTreeMap<(i8, u8), Option<String>>, Vec<BTreeSet<u8>>, BigUint, Vec<BigUint>, (BigInt<2>, BigUint))
+}
+
+fn hostile_scalars(t: &mut Tape<'_>, o: &mut Obs) -> R {
+    dispatch!(t, hostile(t, o);
+        Ints, Ints2, (bool, Option<bool>, Option<Option<u8>>), bool, [Option<u8>; 3], [(u8, bool); 2], Option<BigUint>,
+        Arc<Vec<u8>>, Cow<'static, String>, Vec<Cow<'static, u32>>, (Arc<String>, Cow<'static, bool>), CompressedChecked<Vec<u16>>,
+        Vec<CompressedUnchecked<(u8, bool)>>, Option<Arc<Option<u8>>>)
+}
+
+fn hostile_derive(t: &mut Tape<'_>, o: &mut Obs) -> R {
+    dispatch!(t, hostile(t, o);
+        Plain, Vec<Plain>, Gs<u8>, Gs<Gs<u16>>, Gs<Plain>, Named, Tup, Nest, Vec<Named>, Option<Tup>, BTreeMap<u8, Named>, Vec<G1>, Zst,
+        UncompressedChecked<Named>, (UncompressedUnchecked<G1>, u8))
+}
+
+fn relations(tier: Tier) -> Vec<Rel> {
+    let q = |n: u32| tier.pick(n, n * 15);
+    const LIMIT: usize = 64 << 20;
+    vec![
+        Rel::new("roundtrip/scalars+tuples+arrays+bigints", q(1500), 400, rt_scalars),
+        Rel::new("roundtrip/sequences+strings", q(1500), 1200, rt_seqs),
+        Rel::new("roundtrip/maps+sets", q(1200), 1200, rt_maps),
+        Rel::new("roundtrip/arc+cow+pinned-wrappers", q(1000), 800, rt_pointers),
+        Rel::new("roundtrip/derive-structs+points", q(1200), 1400, rt_derive),
+        Rel::new("roundtrip/containers-of-structs+points", q(600), 1400, rt_derive2),
+        Rel::new("roundtrip/pinned-wrappers+serde_json", q(1200), 800, rt_pinned),
+        Rel::new("roundtrip/large-values", q(160), 400, rt_large).shrink_iters(300),
+        Rel::new("validity/structs+points", q(1200), 700, validity_rel),
+        Rel::new("validity/containers-of-structs+points", q(600), 700, validity_rel2),
+        Rel::new("hostile/sequences+strings", q(2000), 500, hostile_seqs).isolated(LIMIT),
+        Rel::new("hostile/maps+sets+biguint", q(1500), 500, hostile_maps).isolated(LIMIT),
+        Rel::new("hostile/scalars+options+pointers", q(1500), 400, hostile_scalars).isolated(LIMIT),
+        Rel::new("hostile/derive+points", q(1500), 700, hostile_derive).isolated(LIMIT),
+    ]
+}
+
 fn main() {
-    eprintln!("C18: check not implemented");
-    std::process::exit(2);
+    vh_core::engine::main(PropSpec {
+        id: "C18",
+        rule: "A closed set of ~110 concrete Rust types (all integer widths incl. usize/isize, bool, Option, tuples of 0..5, arrays [T;0..7], Vec, VecDeque, LinkedList, String, BTreeMap, BTreeSet, BigUint, BigInt<N>, Arc, Cow, PhantomData, the four mode-pinning wrappers, and seven structs using the derive macros: named, tuple, nested-tuple, 1-tuple, unit, zero-sized and generic fields, with BLS12-381 G1 points) is picked by the tape and filled recursively from it (edge-biased integers, arbitrary Unicode scalars, empty/1/2-4/5-20-element containers under an element budget, nesting up to 4 containers, 10^4-element containers expanded from one tape word). Oracles: deserialize(serialize(v)) == v for 2 compression x 2 validation modes with unrelated trailing bytes left unread, serialized_size == bytes written, &T/&mut T/Rc/Arc/Cow write the same bytes, pinned wrappers always use their pinned mode (also through serde_json); values with G1 points outside the subgroup are rejected by check/batch_check and by deserialization exactly when validation is on; hostile bytes (every truncation, booleans > 1, non-UTF-8 bytes in strings, each length prefix replaced by n±1 / 2^32 / 2^40 / 2^61+1 / 2^62-1 / 2^63 / 2^64-1, uniform bytes, mutated encodings; positions come from an independent model of the documented format) run in a child process with a 64 MiB per-allocation guard and must give Err (or, when not certainly malformed, a value that re-serializes to the bytes read). Non-trivial: the value nests >= 2 containers or has a container of >= 2 elements; validity: additionally contains an invalid point; hostile: the attacked encoding contains at least one length prefix / target byte. distinct = distinct decoded choice sequences.",
+        assumptions: &[
+            "the encoding of a single curve point or field element is the subject of C10/C09; here points are opaque elements whose subgroup membership matters",
+            "containers whose elements have an empty encoding (Vec<()>, Vec<[u8;0]>, Vec<PhantomData>) are round-tripped but never given a hostile length prefix: they would spin 2^62 iterations without reading or allocating, which the property (error instead of panic or unbounded allocation) does not speak about",
+            "non-canonical but well-formed inputs (unsorted or repeated BTreeMap/BTreeSet elements, BigUint with trailing zero bytes) may be accepted; the property only names truncation, invalid booleans/UTF-8 and oversized length prefixes as malformed",
+            "derive supports structs only (the macro panics on enums at compile time)",
+        ],
+        relations,
+    })
 }
